@@ -343,3 +343,29 @@ Theorem C01_shape_preserving_result_is_placed_by_the_output :
   In (map (pidx rho) dout, v) (meval V inp F BC CC (lower_preserve f extra kwlit din dout)).
 Proof. intros V inp F BC CC f extra kwlit din dout Hok rho v. exact (lower_preserve_correct V inp F BC CC f extra kwlit din dout Hok rho v). Qed.
 Print Assumptions C01_shape_preserving_result_is_placed_by_the_output.
+
+(* Rearrangements with new output axes ("a b -> a c b"): "output-only axes repeat the value".  Model/Lower.v ([lower_broadcast]):
+   the input aligned with the output's leaf order (length-1 dimensions where it lacks an axis), the backend's broadcast_to to the
+   output's leaf lengths, reshape to the output dimensions.  The one assumption is numpy.broadcast_to's rule: at every in-range
+   index of the target shape it returns the element the operand holds at that index with 0 in place of every dimension of length
+   1.  Then for every nesting and size and every loop environment over ALL output axes - whatever the values of the axes the input
+   does not have - the modelled lowering holds, at the position the output expression denotes, the element the input holds at the
+   environment's position. *)
+From EinxV Require Import Proofs.OptProofs Proofs.BroadcastFull.
+Theorem C01_output_only_axes_repeat_the_value :
+  forall (V : Type) (inp : nat -> entries V) F BC CC (din dout : list pex),
+  broadcast_ok din dout = true ->
+  (forall (s0 s1 : list N) (e : entries V) (I : list N) (v : V),
+     valid_idx I s1 -> In (bmask s0 I, v) e -> In (I, v) (BC s0 s1 e)) ->
+  forall k rho v, in_bounds rho din -> in_bounds rho dout -> In (map (pidx rho) din, v) (inp k) ->
+  In (map (pidx rho) dout, v) (meval V inp F BC CC (lower_broadcast k din dout)).
+Proof. intros V inp F BC CC din dout Hok Hbc k rho v. exact (broadcast_repeats_the_value V inp F BC CC din dout Hok Hbc k rho v). Qed.
+Print Assumptions C01_output_only_axes_repeat_the_value.
+
+(* the hypotheses are satisfiable: "a b -> (a c) b" with a = 2, b = 3, c = 4 *)
+Example C01_output_only_axes_example :
+  let din := [PAx 1 2 false; PAx 2 3 false] in
+  let dout := [PFl [PAx 1 2 false; PAx 3 4 false]; PAx 2 3 false] in
+  broadcast_ok din dout = true /\ mshape (lower_broadcast 0 din dout) = [8; 3] /\
+  norm (lower_broadcast 0 din dout) = MReshape (MBroadcast (MReshape (MIn 0 [2; 3]) [2; 1; 3]) [2; 4; 3]) [8; 3].
+Proof. vm_compute. repeat split; reflexivity. Qed.
